@@ -331,6 +331,34 @@ def chatty_child_stops(ctx, pexpect):
     ctx.oracle_stats['chatty_children'] = 2
 
 
+def split_character_children(ctx, pexpect):
+    """real children in text mode (encoding given) whose output has a multi-byte character cut by a pause - so that the reads of
+    run() are short and end in the middle of the character: the returned text is still the decoding of the whole output, the event
+    on the text behind the character is answered once, the exit status is the child's (the clause "complete output" over every
+    way the kernel may cut the stream into reads; found missing by seeded change C12-m)"""
+    import sys
+    fixed = [(b'name: caf\xc3', b'\xa9 ok\n', 'utf-8', 'strict'), (b'\xe2\x98', b'\x83 ok\n', 'utf-8', 'replace'), (b'a\xf0\x9f', b'\x98\x80b ok\n', 'utf-8', 'ignore'),
+             (b'x\xe9', b'y ok\n', 'latin-1', 'strict')]
+    done = 0
+    for first, second, codec, errors in fixed:
+        prog = "import os,time\nos.write(1,%r); time.sleep(0.25)\nos.write(1,%r); time.sleep(0.05)\nraise SystemExit(7)\n" % (first, second)
+        want = (first + second).decode(codec).replace('\n', '\r\n')
+        fired = []
+        try:
+            out, status = pexpect.run(sys.executable + " -c '" + prog.replace("'", '"') + "'", timeout=10, withexitstatus=True, encoding=codec, codec_errors=errors,
+                                      events=[('ok', lambda d: fired.append(d.get('event_count')) or None)])
+        except Exception as e:
+            ctx.hit('C12/split-character', 'run(encoding=%r, codec_errors=%r) on a child writing %r, pausing, then %r raised %r' % (codec, errors, first, second, e),
+                    {'first': repr(first), 'second': repr(second), 'codec': codec, 'errors': errors})
+            return
+        done += 1
+        if out != want or status != 7 or len(fired) != 1:
+            ctx.hit('C12/split-character', 'run(encoding=%r, codec_errors=%r) on a child writing %r, pausing, then %r and exiting with 7: returned %r (the output is %r), exit status %r, the event on "ok" fired %d times'
+                    % (codec, errors, first, second, out, want, status, len(fired)), {'first': repr(first), 'second': repr(second), 'codec': codec, 'errors': errors})
+            return
+    ctx.oracle_stats['split_character_children'] = done
+
+
 def run(ctx):
     pexpect = common.preflight()
     thorough = ctx.tier == 'thorough'
@@ -428,11 +456,18 @@ def run(ctx):
     else:
         ctx.corr_broken.append(('run-loop', {'error': 'model did not build'}))
     chatty_child_stops(ctx, pexpect)
+    split_character_children(ctx, pexpect)
 
 
 def replay(ctx, path):
     pexpect = common.preflight()
     d = json.load(open(path))['replay']
+    if 'case' not in d:                      # a real-child oracle (chatty / split-character): run those oracles again
+        chatty_child_stops(ctx, pexpect)
+        split_character_children(ctx, pexpect)
+        for h in ctx.hits:
+            print(h)
+        return 1 if ctx.hits else 0
     case = d['case']
     case['events'] = [(p if isinstance(p, str) else ('r', _t(p[1])), _t(r)) for p, r in case['events']]
     kind, out, sent, box = run_real(pexpect, case)
